@@ -44,6 +44,10 @@ def make_agg(kind: str, rows: int, dtype):
         return Krum(n_byzantine=rows, n_selected=1)
     if kind == "trimmed_too_few":
         return TrimmedMean(trim_number=rows)
+    if kind == "krum_one_short":                 # needs n_byzantine + 3 rows, is given n_byzantine + 2
+        return Krum(n_byzantine=max(rows - 2, 0), n_selected=1)
+    if kind == "trimmed_one_short":              # needs 2 b + 1 rows, is given 2 b   (rows even)
+        return TrimmedMean(trim_number=rows // 2)
     raise ValueError(kind)
 
 
